@@ -632,3 +632,32 @@ package render
 //@ assigns *
 //@ ensures keeps: @evalkeeps
 //@ ensures tree: @tree
+
+//@ func (*render.blockSyntax).ParentTags
+//@ props C01 C06
+//@ panics nothing
+//@ requires recv: s != nil
+//@ assigns alloc S$Str
+//@ loop 1 invariant fresh: freshOrNil(parents)
+
+// ASSUMPTION (listed in evidence): the tag renderers are verified against
+// render.Context.Evaluate / EvaluateString as `assigns nothing`. What is PROVED of the two
+// implementations is weaker: evaluating an expression keeps every object that existed before
+// in the heaps of @evalkeeps and @tree (values, strings, maps of bindings, the render tree);
+// the rest rests on the filters, which run through reflection, being free of side effects.
+//@ func (render.rendererContext).Evaluate
+//@ props C08 C01
+//@ panics nothing
+//@ assumes-impl tag renderers assume render.Context.Evaluate changes nothing; proved: it keeps @evalkeeps and @tree (filters run through reflection)
+//@ assumes args: expr != nil
+//@ assigns *
+//@ ensures keeps: @evalkeeps
+//@ ensures tree: @tree
+
+//@ func (render.rendererContext).EvaluateString
+//@ props C08 C01
+//@ panics nothing
+//@ assumes-impl tag renderers assume render.Context.EvaluateString changes nothing; proved: it keeps @evalkeeps and @tree (filters run through reflection)
+//@ assigns *
+//@ ensures keeps: @evalkeeps
+//@ ensures tree: @tree
